@@ -6,7 +6,7 @@ set -e
 WT="$1"; shift
 T=/var/tmp/verif-trial-$$
 mkdir -p "$T"
-rsync -a --exclude replays /verif/ "$T"/
+rsync -a --exclude replays /verif/ "$T"/ 2>/dev/null || true
 cd "$T"
 for P in "$@"; do
   echo "=== $P on $WT"
